@@ -43,7 +43,7 @@ func (modelFS) CreateEmpty(p string) error                        { return vfs.C
 // Step is one history element.
 type Step struct {
 	Kind string    `json:"kind"` // configure | fs | query
-	Dirs []string  `json:"dirs,omitempty"`
+	Dirs []string  `json:"dirs"` // nil = not changed; empty = reconfigured with an empty directory list
 	Auto *bool     `json:"auto_refresh,omitempty"`
 	Op   *fsops.Op `json:"op,omitempty"`
 }
@@ -80,7 +80,8 @@ func bp(b bool) *bool { return &b }
 // the deviation bound is higher).
 func smallAlphabet() []Step {
 	var a []Step
-	a = append(a, Step{Kind: "configure", Dirs: []string{"d1", "d0"}}, Step{Kind: "configure", Dirs: []string{"d0"}}, Step{Kind: "configure", Auto: bp(true)}, Step{Kind: "configure", Auto: bp(false)})
+	a = append(a, Step{Kind: "configure", Dirs: []string{"d1", "d0"}}, Step{Kind: "configure", Dirs: []string{"d0"}}, Step{Kind: "configure", Auto: bp(true)}, Step{Kind: "configure", Auto: bp(false)},
+		Step{Kind: "configure", Dirs: []string{}})
 	for _, o := range []fsops.Op{{Kind: "write", Dir: "d0", Name: "x.yaml", Content: "A"}, {Kind: "mkdir", Dir: "d1"}, {Kind: "rmtree", Dir: "d1"}} {
 		o := o
 		a = append(a, Step{Kind: "fs", Op: &o})
@@ -91,7 +92,7 @@ func smallAlphabet() []Step {
 
 func alphabet() []Step {
 	var a []Step
-	for _, d := range [][]string{{"d0", "d1"}, {"d1", "d0"}, {"d0"}, {"d0", "d1", "d2"}} {
+	for _, d := range [][]string{{"d0", "d1"}, {"d1", "d0"}, {"d0"}, {"d0", "d1", "d2"}, {}} {
 		a = append(a, Step{Kind: "configure", Dirs: d})
 	}
 	a = append(a, Step{Kind: "configure", Auto: bp(true)}, Step{Kind: "configure", Auto: bp(false)}, Step{Kind: "configure", Dirs: []string{"d1", "d2"}, Auto: bp(true)})
